@@ -205,7 +205,12 @@ CONFIGS = {
     'FromFloat': [{'dtype': 'uint8'}, {'dtype': 'uint16'}, {'dtype': 'int16'}, {'dtype': 'uint16', 'min_value': 0.0, 'max_value': 100.0}],
     'InvertImg': [{}],
     'RandomGamma': [{}, {'gamma_limit': (50, 150)}, {'gamma_limit': 120}],
-    'RandomBrightnessContrast': [{}, {'max_brightness': 200}, {'brightness_limit': 0.5, 'contrast_limit': 0.4}, {'max_brightness': 1.0}],
+    'RandomBrightnessContrast': [{}, {'max_brightness': 200}, {'brightness_limit': 0.5, 'contrast_limit': 0.4}, {'max_brightness': 1.0},
+                                 # contrast only (beta = 0) and brightness only (alpha = 1), with and without the ceiling
+                                 {'max_brightness': 200, 'brightness_limit': 0, 'contrast_limit': (0.3, 0.5)},
+                                 {'brightness_limit': 0, 'contrast_limit': (0.3, 0.5)},
+                                 {'max_brightness': 200, 'brightness_limit': (0.1, 0.3), 'contrast_limit': 0},
+                                 {'brightness_limit': (-0.3, -0.1), 'contrast_limit': 0}],
     'GaussNoise': [{}, {'var_limit': 20.0, 'mean': 3}, {'var_limit': (5.0, 30.0), 'per_channel': False},
                    {'apply_to_channel_idx': 0, 'var_limit': 30.0}, {'apply_to_channel_idx': 1, 'var_limit': 30.0, 'per_channel': False}],
     'Posterize': [{'num_bits': 4}, {'num_bits': (2, 6)}, {'num_bits': 1}],
